@@ -272,6 +272,68 @@ func IsSqlSep(r rune) bool {
 		r == '\n' || r == '\r'
 }
 
+// TrimTrailingComments returns sql without the white space and the comments
+// that follow its last token: block comments, "#" comments and "-- " comments.
+// Comment marks inside quoted strings and quoted identifiers do not count.
+// Drivers and middlewares append such comments (trace ids) to statements;
+// checks that look at the last words of a statement must not see them.
+func TrimTrailingComments(sql string) string {
+	const (
+		inCode       = iota
+		inQuote      // inside '...', "..." or `...`
+		inEscape     // on the character after a backslash inside '...' or "..."
+		inBlockOpen  // on the '*' of "/*"
+		inBlock      // inside /* ... */
+		inBlockClose // on the '/' of "*/"
+		inLine       // inside a comment that runs to the end of the line
+	)
+	state, quote, end := inCode, byte(0), 0
+	for i := 0; i < len(sql); i++ {
+		c := sql[i]
+		switch state {
+		case inQuote:
+			if c == '\\' && quote != '`' {
+				state = inEscape
+			} else if c == quote {
+				state = inCode
+			}
+			end = i + 1
+		case inEscape:
+			state = inQuote
+			end = i + 1
+		case inBlockOpen:
+			state = inBlock
+		case inBlock:
+			if c == '*' && i+1 < len(sql) && sql[i+1] == '/' {
+				state = inBlockClose
+			}
+		case inBlockClose:
+			state = inCode
+		case inLine:
+			if c == '\n' {
+				state = inCode
+			}
+		default:
+			switch {
+			case c == '\'' || c == '"' || c == '`':
+				state, quote, end = inQuote, c, i+1
+			case c == '/' && i+1 < len(sql) && sql[i+1] == '*':
+				state = inBlockOpen
+			case c == '#':
+				state = inLine
+			case c == '-' && i+1 < len(sql) && sql[i+1] == '-' &&
+				(i+2 == len(sql) || sql[i+2] <= ' ' || sql[i+2] == 0x7f):
+				// "--" starts a comment only in front of white space, a control character or the end
+				state = inLine
+			case c == ' ' || (c >= '\t' && c <= '\r'):
+			default:
+				end = i + 1
+			}
+		}
+	}
+	return sql[:end]
+}
+
 // GetDBTable get the database name from token
 func GetDBTable(token string) (string, string) {
 	if len(token) == 0 {
